@@ -190,6 +190,8 @@ fn run_case_inner(case: &Case) -> J {
         vm.define_native("main", "host_string", host_string);
     }
     let alloc_base = verif::alloc_index();
+    // what the interpreter did while it was being created (compiling and running core.yl) is not part of the case
+    let _ = verif::take_events();
 
     let mut runs = Vec::new();
     for snip in snippets.iter() {
